@@ -97,7 +97,7 @@ def assignments(names: list[str], rng, cap_bits: int = 10, cap_rows: int | None 
 
 def value(g, vals) -> complex:
     from tsim.core.graph import evaluate_graph
-    return complex(np.asarray(evaluate_graph(g, vals)).reshape(-1)[0])
+    return complex(np.asarray(evaluate_graph(g, dict(vals))).reshape(-1)[0])   # pyzx's evaluate_scalar adds entries to the dict it is given
 
 
 def values(g, assigns) -> np.ndarray:
@@ -381,7 +381,7 @@ def check_components(ctx: Ctx, g, label: dict, rng, state: dict, with_tensor: bo
 
     TG._collect_vertices = spy
     try:
-        with time_limit(60):
+        with time_limit(20):
             comps = TG.connected_components(g)
     except Exception as e:  # noqa
         ctx.violation("components-exception", f"connected_components raised / did not terminate: {e!r} (circuit {label.get('key')})", dict(label, kind="components", error=traceback.format_exc()[-1200:]))
@@ -455,10 +455,10 @@ def check_components(ctx: Ctx, g, label: dict, rng, state: dict, with_tensor: bo
         for vals in assignments(names, rng, 10, cap_rows=4):
             try:
                 from tsim.core.graph import evaluate_graph
-                whole = np.asarray(evaluate_graph(g, vals))
+                whole = np.asarray(evaluate_graph(g, dict(vals)))
                 prod = np.ones((), dtype=complex)
                 for c in comps:
-                    prod = np.multiply.outer(prod, np.asarray(evaluate_graph(c.graph, vals)))
+                    prod = np.multiply.outer(prod, np.asarray(evaluate_graph(c.graph, dict(vals))))
             except Exception as e:  # noqa
                 ctx.cov["tensor_product_skipped"] = ctx.cov.get("tensor_product_skipped", 0) + 1
                 break
@@ -517,7 +517,7 @@ def check_plug(ctx: Ctx, comp, label: dict, rng, state: dict):
         ctx.violation("plug-exception", f"_plug_outputs raised {e!r} (circuit {label.get('key')})", dict(lab, error=traceback.format_exc()[-1200:]))
         return False
     for fv in assignments(fnames, rng, 10, cap_rows=4):
-        T = np.asarray(evaluate_graph(sg, fv)).astype(complex)
+        T = np.asarray(evaluate_graph(sg, dict(fv))).astype(complex)
         scale = max(float(np.max(np.abs(T))), 1e-300)
         for k, gk in enumerate(graphs):
             if len(gk.outputs()) != 0:
@@ -622,7 +622,7 @@ def run_circuit(ctx: Ctx, text: str, detectors: bool, rng, state: dict, *, deep:
             try:
                 if n <= 8:
                     fn = sorted(get_params(sg))
-                    T = sum(np.abs(np.asarray(evaluate_graph(sg, fv))) for fv in assignments(fn, rng, 4, cap_rows=16))
+                    T = sum(np.abs(np.asarray(evaluate_graph(sg, dict(fv)))) for fv in assignments(fn, rng, 4, cap_rows=16))
             except Exception:  # noqa
                 T = None
             if T is not None:
@@ -703,10 +703,10 @@ def run(ctx: Ctx) -> int:
 
     cases = [(t, d, True) for t, d in FIXED]
     # dense non-Clifford circuits: 0..7 gates, i.e. 0..14 non-Clifford phases in the doubled diagram
-    nc_list = [0, 1, 2, 3, 4, 5, 6, 7] * 3 if quick else [0, 1, 2, 3, 4, 5, 6, 7] * 10
+    nc_list = [0, 1, 2, 3, 4, 5, 6, 7] * 5 if quick else [0, 1, 2, 3, 4, 5, 6, 7] * 12
     for n_nc in nc_list:
         cases.append((nonclifford_block(prng, prng.choice([1, 2, 3]), n_nc), False, n_nc <= 4))
-    sizes = [2, 3, 4, 6, 8, 12, 20, 40] if quick else [2, 2, 3, 3, 4, 4, 5, 6, 6, 8, 8, 10, 12, 16, 20, 24, 32, 40] * 2
+    sizes = [2, 3, 3, 4, 4, 6, 6, 8, 8, 12, 16, 20, 30, 40] if quick else [2, 2, 3, 3, 4, 4, 5, 6, 6, 8, 8, 10, 12, 16, 20, 24, 32, 40] * 2
     for i, nq in enumerate(sizes):
         det = (i % 4 == 3)
         cases.append((gen_circuit(prng, nq, bs_max=5, out_cap=8, nc_max=3, noise_max=3, detectors=det), det, False))
